@@ -488,7 +488,8 @@ def to_words(ws):
 
 
 def eval_action(argv_words, mode="handler", pre=None, tag=None, **kw):
-    d = {"n": "Eval", "mode": mode, "pre": pre or [], "argv": to_words(argv_words), "cmd": [], "tag": tag or {"k": "none"}}
+    d = {"n": "Eval", "mode": mode, "presrc": "none", "filetext": [], "envstr": [], "argv": to_words(argv_words), "cmd": [],
+         "tag": tag or {"k": "none"}}
     d.update(kw)
     return d
 
